@@ -253,6 +253,25 @@ theorem construct_fails_iff (e : Nat) (given : List Nat) :
       subst h1; subst h2
       exact ⟨rfl, List.contains_iff_mem.mpr hr.1, hr.2⟩
 
+/-- **C06 (constructor keywords)**: a keyword argument of the constructor is decided exactly like
+    `setAttribute` with checks on — whatever `check_grammar` the constructor got, and in particular
+    every keyword is refused on an element without an allowed_attributes row. -/
+theorem constructKw_keyword (Tb : Tables) (chk : Bool) (e kw : Nat) (given rest : List Nat) :
+    ((setAttribute Tb true e kw).isOk = false →
+        constructKw Tb chk e given (kw :: rest) = .error (.refusedKeyword kw))
+    ∧ (allowedAttrsOf Tb e = none → constructKw Tb chk e given (kw :: rest) = .error (.refusedKeyword kw))
+    ∧ (∀ a, setAttribute Tb true e kw = .ok a →
+        constructKw Tb chk e given (kw :: rest) = constructKw Tb chk e (given ++ [a]) rest) := by
+  refine ⟨?_, ?_, ?_⟩
+  · intro h
+    cases hs : setAttribute Tb true e kw with
+    | ok a => simp [hs, Except.isOk, Except.toBool] at h
+    | error err => simp [constructKw, loadKeywords, hs]
+  · intro h
+    simp [constructKw, loadKeywords, setAttribute, h]
+  · intro a h
+    simp [constructKw, loadKeywords, h]
+
 /-- **C06 (factories)**: every element the schemas declare is produced by an element factory
     (called as `f(check_grammar=False)`), or is a documented exception / listed finding. -/
 theorem factories_cover (e : Nat) (he : e < GrammarTables.nElems) (hs : schema.isElem e = true) :
